@@ -299,7 +299,10 @@ Definition strtab_offset (s : image_spec) : Z :=
   match nth_sec s (i_shstrndx s) with Some x => sh_offset (snd x) | None => 0 end.
 Definition name_at (img : list Z) (s : image_spec) (x : list Z * shdr_spec) : bool :=
   no_nul (fst x) && at_ img (strtab_offset s + sh_name (snd x)) (fst x ++ [0]).
-Definition names_ok (img : list Z) (s : image_spec) : bool := forallb (name_at img s) (i_sections s).
+(* (the table offset is computed once for all the names) *)
+Definition names_ok (img : list Z) (s : image_spec) : bool :=
+  let off := strtab_offset s in
+  forallb (fun x => no_nul (fst x) && at_ img (off + sh_name (snd x)) (fst x ++ [0])) (i_sections s).
 
 (* ---- what the specialised objects need *)
 Definition SHF_COMPRESSED_STD : Z := 0x800.
